@@ -25,14 +25,16 @@ COQ_SHARD = 150
 REPLAY_KIND = 'schedule'
 IMPL_TIMEOUT = 2400
 EXHAUSTIVE = {'quick': False, 'thorough': True}    # quick explores some pairs at bound 1 only
-RULE = ('a case = the programs of 2-3 threads (operations get-hit / get-miss / get of a missing row / first use of the class / '
-        'create / expire of a held instance / expireAll (cache level and sqlmeta level) / cull triggered through the counters) after a '
+RULE = ('a case = the mode of the connection (cache=True / cache=False) + the programs of 2-3 threads (operations get-hit / get-miss / '
+        'get of a missing row / first use of the class / create / expire of a held instance / expireAll (cache level and sqlmeta level) / '
+        'cull triggered through the counters; cache=False: hit through a live weak entry, dead weak entry, miss) after a '
         'sequential set-up program, plus ONE schedule.  Schedules: for every pair of operations in every set-up world, ALL schedules '
         'with at most 2 preemptions (quick; 3 for the core operations in thorough), found by stateless search on the code under test '
         '(preemption points = statements that touch shared state; other statements commute); 3 threads at bound 1; then seeded random '
         'schedules over longer programs.  Non-trivial = at least one context switch between two unfinished threads; distinct = distinct '
         '(programs, executed schedule).')
-EXPLANATION = ('Theorems of Props/C09.v over the interleaving semantics Model/CacheConc.v (one transition per source statement); the '
+EXPLANATION = ('Theorems of Props/C09.v over the interleaving semantics Model/CacheConc.v (one transition per source statement; the `cache` '
+               'option of the connection is a parameter of the model and universally quantified in the C09_*_modes_* theorems); the '
                'program-point table is tied to cache.py/main.py by the statement skeleton extracted with ast on this run '
                '(tools/sched/skeleton.py, Gen/CacheConc.v); correspondence: every schedule executed on real threads by the deterministic '
                'scheduler is replayed on the model inside Coq and compared after every step; the oracle judges the real run alone.')
@@ -47,9 +49,13 @@ TRUSTED_BASE = [
     'the proved theorems (C09_*_partial) cover every operation of the model (get: hit / miss / missing row / first use; create; '
     'expire of a held instance; cull triggered through the counters; CacheFactory.expireAll; sqlmeta.expireAll; forgetting a result) for '
     'any number of threads, programs and schedules, under the guard of Model/CacheConcSpec.v, which excludes one kind of step: the write '
-    'of created() when the cache already has an entry for the new id (open finding created_overwrites_get_miss)',
-    'cache=True connections only in the model and theorems (cache=False runs are judged by the oracle only); __setstate__ (unpickling), '
-    'destroySelf, sync and _SO_loadValue are outside the operation list',
+    'of created() (line K181; K183 when caching is off) when the cache already has an entry for the new id (open finding '
+    'created_overwrites_get_miss), and expire() of an instance whose constructor has not returned (open finding created_publishes_uninitialised_instance)',
+    'both modes of the connection are modelled, replayed and covered by the theorems (C09_*_modes_*); for cache=False the guard carries ONE '
+    'unproved assumption: when get deletes a weak entry (line F142) the entry the lock holder saw dead at line F137 is still there and '
+    'still dead (true in the model: only the lock holder writes the weak dict and a dead referent never comes back; checked by the replay '
+    'on every executed step; not proved)',
+    '__setstate__ (unpickling), destroySelf (cache.purge), sync and _SO_loadValue are outside the operation list',
     'CPython dict iteration over a dict modified without a change of size is not modelled (such runs are counted, not compared)',
     'the scheduler tools/sched (sys.settrace line hook, cooperative lock patched into sqlobject.cache/sqlobject.main) and this harness',
     'completeness of the exhaustive enumeration rests on: statements not marked visible in tools/sched/expected.py touch no shared state',
@@ -60,6 +66,7 @@ ROOT = os.path.dirname(os.path.dirname(os.path.dirname(os.path.abspath(__file__)
 # ---------------------------------------------------------------- configurations
 CFG = {'freq': 100, 'frac': 2}
 CFG_CULL = {'freq': 0, 'frac': 2}
+CFG_NC = {'cache': 0, 'freq': 100, 'frac': 2}       # connection with ?cache=0: CacheFactory.doCache False
 
 WORLDS = {
     # name: (rows, cfg, set-up program)
@@ -69,6 +76,10 @@ WORLDS = {
     'weakdead': ([1, 2, 3], CFG, [['get', 1], ['get', 2], ['xall'], ['drop', [0, 0]]]),
     'unheld': ([1, 2, 3], CFG, [['get', 1], ['get', 2], ['drop', [0, 1]]]),
     'cull': ([1, 2, 3], CFG_CULL, [['get', 1], ['get', 2], ['get', 3]]),
+    # cache=False: nothing cached yet / two live weak entries (held by the set-up thread) / one dead and one live entry
+    'nc_fresh': ([1, 2], CFG_NC, []),
+    'nc_held': ([1, 2, 3], CFG_NC, [['get', 1], ['get', 2]]),
+    'nc_dead': ([1, 2, 3], CFG_NC, [['get', 1], ['get', 2], ['drop', [0, 0]]]),
 }
 OPS = {
     'get1': ['get', 1], 'get2': ['get', 2], 'get3': ['get', 3], 'get9': ['get', 9], 'getnew': None,
@@ -82,6 +93,9 @@ WORLD_OPS = {
     'weakdead': ['get1', 'get2', 'create', 'exp1', 'xall', 'mexall'],
     'unheld': ['get2', 'get3', 'create', 'xall', 'mexall'],
     'cull': ['get1', 'get3', 'get9', 'create', 'exp0', 'exp2', 'xall'],
+    'nc_fresh': ['get1', 'get9', 'create', 'getnew', 'xall', 'mexall'],
+    'nc_held': ['get1', 'get3', 'create', 'getnew', 'exp0', 'mexall'],
+    'nc_dead': ['get1', 'get2', 'create', 'exp1', 'mexall'],
 }
 
 
@@ -90,6 +104,9 @@ QUICK_B2 = {   # the pairs explored at bound 2 in the quick tier for these world
     'cull': {('get1', 'get3'), ('get3', 'create'), ('create', 'exp0'), ('get1', 'xall'), ('get1', 'exp2')},
     'weakdead': {('get1', 'get1'), ('get1', 'get2'), ('get1', 'exp1'), ('get1', 'xall')},
     'unheld': {('get2', 'get2'), ('get2', 'xall'), ('xall', 'xall'), ('create', 'xall')},
+    'nc_fresh': {('get1', 'get1'), ('get1', 'create'), ('create', 'getnew'), ('get1', 'get9'), ('create', 'create'), ('get1', 'getnew')},
+    'nc_held': {('get1', 'get3'), ('get3', 'get3'), ('get1', 'exp0'), ('create', 'getnew'), ('get3', 'create')},
+    'nc_dead': {('get1', 'get1'), ('get1', 'get2'), ('get1', 'create'), ('get1', 'exp1')},
 }
 
 
@@ -118,7 +135,7 @@ def configs(tier):
                     bound = 1
             else:
                 # thorough: bound 3 for the core operations where most of the code runs, 2 elsewhere
-                core3 = w in ('fresh', 'strong', 'weak') and a in THOROUGH_B3 and b in THOROUGH_B3
+                core3 = w in ('fresh', 'strong', 'weak', 'nc_fresh', 'nc_held') and a in THOROUGH_B3 and b in THOROUGH_B3
                 bound = 3 if core3 else 2
                 if nheavy == 2 and w not in ('strong', 'weak'):
                     bound = 1
@@ -127,7 +144,9 @@ def configs(tier):
     triples = [('fresh', ['get1', 'get1', 'create']), ('fresh', ['get1', 'create', 'getnew']),
                ('strong', ['get3', 'get3', 'exp0']), ('strong', ['get1', 'exp0', 'exp0']),
                ('strong', ['create', 'getnew', 'xall']), ('weak', ['get1', 'get1', 'exp0']),
-               ('weak', ['get1', 'xall', 'create']), ('unheld', ['get2', 'xall', 'xall'])]
+               ('weak', ['get1', 'xall', 'create']), ('unheld', ['get2', 'xall', 'xall']),
+               ('nc_fresh', ['get1', 'get1', 'create']), ('nc_dead', ['get1', 'get1', 'exp1']),
+               ('nc_held', ['get3', 'create', 'getnew'])]
     if tier != 'quick':
         triples += [('cull', ['get1', 'get3', 'create']), ('strong', ['get3', 'create', 'get9'])]
     if tier != 'quick':
@@ -139,7 +158,7 @@ def configs(tier):
     for w, tr in triples:
         out.append((base_case(w, tr), 1))
     # create || (get of the new id, then expire of what the get returned)
-    for w in ('fresh', 'strong'):
+    for w in ('fresh', 'strong', 'nc_fresh'):
         b = base_case(w, ['create', 'getnew'])
         b['progs'][2].append(['expire', [2, 0]])
         b['ops'] = ['create', 'getnew+expire']
@@ -214,6 +233,10 @@ def corpus():
               'progs': [[['get', 1], ['get', 2], ['xall'], ['drop', [0, 0]]], [['mexall']], [['create']]],
               'sched': {'kind': 'list', 'list': [1] * 9 + [2] * 6 + [1] * 8 + [2] * 2 + [1] * 3},
               'tag': 'created_unlocked_without_caching'})
+    # cache=False: create || get of the id being created (the open finding in the other mode)
+    c.append(dict(base_case('nc_held', ['create', 'getnew']), sched={'first': 1, 'pre': [[0, 2, 2]], 'prio': [1, 2]}, tag='created_overwrites_get_miss'))
+    # cache=False: a dead weak entry is deleted under the lock while another get waits
+    c.append(dict(base_case('nc_dead', ['get1', 'get1']), sched={'first': 1, 'pre': [[0, 3, 2]], 'prio': [1, 2]}, tag='nocache_dead_entry'))
     # the seeded defect "no re-check under the lock" needs exactly this shape
     c.append(dict(base_case('fresh', ['get1', 'get1']), sched={'first': 1, 'pre': [[0, 9, 2]], 'prio': [1, 2]}, tag='double_checked_lookup'))
     return c
@@ -263,7 +286,7 @@ def generate(rng, tier):
             out.append(c)
     nrand = 1000 if tier == 'quick' else 8000
     out += [random_case(rng, k) for k in range(nrand)]
-    # cache=False: judged by the oracle only
+    # cache=False over every world (also the ones whose set-up uses expireAll / a low cullFrequency): replayed on the model too
     for k in range(60 if tier == 'quick' else 600):
         c = random_case(rng, k)
         c['cfg']['cache'] = 0
@@ -365,7 +388,7 @@ def coq_res(r):
 def coq_case(c, o):
     pcs = model_pcs()
     cfg = c.get('cfg', {})
-    skip = not cfg.get('cache', 1)
+    skip = False
     valid = o.get('verdict') == 'ok' and not o.get('skeleton')
     steps = []
     for t, lab, opi, st in o.get('trace', []):
@@ -378,9 +401,9 @@ def coq_case(c, o):
     if not valid or skip:
         steps = []
     init = o.get('init') or {'present': 0, 'lock': None, 'strong': [], 'weak': [], 'cc': 0, 'co': 0}
-    return ('{| c_freq := %s; c_frac := %d; c_rows := [%s]; c_progs := [%s]; c_init := %s;\n c_trace := [%s];\n'
+    return ('{| c_cache := %s; c_freq := %s; c_frac := %d; c_rows := [%s]; c_progs := [%s]; c_init := %s;\n c_trace := [%s];\n'
             ' c_results := [%s]; c_strong := [%s]; c_weak := [%s]; c_valid := %s; c_skip := %s |}' % (
-                zl(cfg.get('freq', 100)), cfg.get('frac', 2), ';'.join(zl(r) for r in c.get('rows', [])),
+                'true' if cfg.get('cache', 1) else 'false', zl(cfg.get('freq', 100)), cfg.get('frac', 2), ';'.join(zl(r) for r in c.get('rows', [])),
                 ';'.join('[%s]' % ';'.join(coq_op(x) for x in p) for p in c['progs']),
                 coq_obs(init), ';'.join(steps),
                 ';'.join('[%s]' % ';'.join(coq_res(r) for r in row) for row in o.get('results', [])),
@@ -509,13 +532,13 @@ def classify_by_shape(c, o, f):
 
 def classify(c, o, f):
     """The one open finding, recognised narrowly: a get of the row being created registers its own instance
-    (line 153 of put) after the creator's INSERT (main.py, queryInsertID) and before the creator's write in
+    (line 153 of put; line 155 when caching is off) after the creator's INSERT (main.py, queryInsertID) and before the creator's write in
     created().  The findings created_vs_expireall_iteration, created_lost_in_expireall (fixed by 6765e29),
     getall_unlocked_iteration (fixed by 7ef2364) and expire_of_expired_instance_purges_current (fixed by ad272ca)
     are not classified: they would be violations."""
     if not isinstance(o, dict) or 'trace' not in o:
         return None
-    if o.get('skeleton') or not c.get('cfg', {}).get('cache', 1):
+    if o.get('skeleton'):
         return classify_by_shape(c, o, f)
     if _uninit_use(c, o, f):
         return 'created_publishes_uninitialised_instance'
@@ -529,9 +552,9 @@ def classify(c, o, f):
     for t, before, after in timeline(o):
         if before == 'C1397':
             pending.add(t)
-        elif before == 'K181':
+        elif before in ('K181', 'K183'):
             pending.discard(t)
-        elif before == 'P153' and pending - {t}:
+        elif before in ('P153', 'P155') and pending - {t}:
             racing.add(t)
     if any(t in racing for t, _ in gets) and _load_before_reread(c, o, f.get('row'), creates, gets):
         return 'created_overwrites_get_miss'
@@ -556,7 +579,8 @@ def key(c):
 
 def distribution(cases, obs):
     d = {'by_world': {}, 'by_ops': {}, 'by_preemptions': {}, 'steps_total': 0, 'verdicts': {}, 'random': 0, 'cache_off': 0,
-         'three_threads': 0, 'notfound': 0, 'culls': 0, 'blocked_waits': 0}
+         'three_threads': 0, 'notfound': 0, 'culls': 0, 'blocked_waits': 0,
+         'cache_off_dead_entry_deleted': 0, 'cache_off_unlocked_hit': 0, 'cache_off_locked_hit': 0, 'cache_off_created': 0}
     for c, o in zip(cases, obs):
         if not isinstance(o, dict) or 'trace' not in o:
             continue
@@ -577,6 +601,10 @@ def distribution(cases, obs):
         labs = {x[1] for x in o['trace']}
         if 'U205' in labs:
             d['culls'] += 1
+        for lab, k2 in (('F143', 'cache_off_dead_entry_deleted'), ('F132', 'cache_off_unlocked_hit'),
+                        ('F145', 'cache_off_locked_hit'), ('K183r', 'cache_off_created')):
+            if lab in labs:
+                d[k2] += 1
         if any(r[0] == 'exc' and r[1] == 'SQLObjectNotFound' for row in o['results'] for r in row):
             d['notfound'] += 1
     return d
